@@ -5,9 +5,20 @@
 #include "../sync_ondata/scripted_engine.h"
 #include "replay_io.h"
 int main(int argc, char **argv) {
-  auto in = replay_io::load(argv[1]); (void)in;
+  auto in = replay_io::load(argv[1]); int scen = in.count("SCEN") ? (int)replay_io::u64(in["SCEN"]) : 1;
   auto eng = std::make_unique<ScriptedEngine>(); ScriptedEngine *e = eng.get();
   auto t = Transport::withEngine(std::move(eng), TransportConfig{});
+  if (scen == 2) {
+    // clause F0: bytes buffered in Sync mode survive a Sync -> Disabled pause; Disabled -> Async must hand them to the callback before later bytes
+    std::string g; t->onData([&](SessionId, iora::core::BufferView d, std::chrono::steady_clock::time_point) { g.append((const char *)d.data(), d.size()); });
+    t->setReadMode(7, ReadMode::Sync);
+    e->cbs.onData(7, iora::core::BufferView((const uint8_t *)"AB", 2), std::chrono::steady_clock::now());
+    t->setReadMode(7, ReadMode::Disabled); t->setReadMode(7, ReadMode::Async);
+    e->cbs.onData(7, iora::core::BufferView((const uint8_t *)"CD", 2), std::chrono::steady_clock::now());
+    printf("Sync; AB buffered; setReadMode(Disabled); setReadMode(Async); CD -> application received \"%s\"\n", g.c_str());
+    if (g != "ABCD") replay_io::fail("F0 (C01): the switch to Async took the simple path although bytes were still buffered: hole / reorder in what the application receives");
+    replay_io::ok("buffered bytes flushed before later bytes"); return 0;
+  }
   const SessionId sid = 7; std::string got; int depth = 0, maxDepth = 0; bool injected = false; ReadMode modeDuring = ReadMode::Async;
   t->onData([&](SessionId, iora::core::BufferView d, std::chrono::steady_clock::time_point) {
     depth++; maxDepth = std::max(maxDepth, depth);
